@@ -320,8 +320,8 @@ def r4_dispatch(prog, rep: Report, fam: Family):
             """the index comes out of a private helper of the class that was not inlined: not in view"""
             return "iterates " in why_ and any(isinstance(x, ast.Call) and isinstance(x.func, ast.Attribute) and x.func.attr.startswith("_")
                                                and isinstance(x.func.value, ast.Name) and x.func.value.id == g.self_name
-                                               for n_ in walk_own(g.node) if isinstance(n_, (ast.For, ast.comprehension, ast.ListComp))
-                                               for x in ast.walk(n_.iter if isinstance(n_, (ast.For, ast.comprehension)) else n_))
+                                               for n_ in ast.walk(g.node) if isinstance(n_, (ast.For, ast.comprehension))
+                                               for x in ast.walk(n_.iter))
         for call, why in [b_ for b_ in bad if through_helper(*b_)]:
             rep.unrec("C11.R4", g, "selector:modified", why + " (a helper of the class computes the indexes)", call.lineno)
         helper_hidden = any(through_helper(*b_) for b_ in bad)
